@@ -5,7 +5,9 @@ package main
 import (
 	"fmt"
 	"go/ast"
+	"go/token"
 	"go/types"
+	"golang.org/x/tools/go/cfg"
 	"sort"
 	"strings"
 )
@@ -36,6 +38,8 @@ func init() {
 				Run:  c14h},
 			{ID: "C14.g", Title: "CHECKTREE-ARGS", Template: "T6", MinInst: 1,
 				Rule: "CheckTree(p=proof, t=newSize, th=newHash, n=recorded size, h=recorded hash) by parameter name", Run: c14g},
+			{ID: "C14.j", Title: "KEY-PINNED", Template: "T2", MinInst: 1,
+				Rule: "in PullLogList, for an origin already in the configuration, with the edges on which the listed key equals a configured key cut, neither the next list entry, a store to the working configuration nor a successful return is reachable", Run: c14j},
 		},
 	})
 }
@@ -835,4 +839,111 @@ func c14h(c *Ctx) {
 			c.Bad(inst, s.Pos(), "a storage/lock error is not handled in the witness: "+how)
 		}
 	}
+}
+
+// ---------------------------------------------------------------------------
+// C14.j KEY-PINNED: "that log's key" cannot be replaced by a later log list.
+
+func c14j(c *Ctx) {
+	f := c.Fn("witness.(*Witness).PullLogList")
+	if f == nil {
+		return
+	}
+	c.touch(f)
+	info := f.Info()
+	g := f.Graph()
+	inst := f.Name + " known origin keeps its key"
+	// the loop over the parsed list and the lookup `l, ok := newMeta[origin]`
+	var loop *ast.RangeStmt
+	ast.Inspect(f.Body, func(n ast.Node) bool {
+		if rs, ok := n.(*ast.RangeStmt); ok && rs.Key != nil && rs.Value != nil {
+			if _, isPL := f.IsCallResult(rs.X, 0, Callee{pkgWitness, "", "parseLogList"}); isPL {
+				loop = rs
+			}
+		}
+		return true
+	})
+	if loop == nil {
+		c.Unk(inst, "loop over parseLogList's result not found")
+		return
+	}
+	originObj, vkeyObj := objOf(info, loop.Key), objOf(info, loop.Value)
+	var known map[Edge]bool
+	var metaObj types.Object
+	for _, s := range f.Find(func(n ast.Node) bool {
+		a, ok := n.(*ast.AssignStmt)
+		if !ok || len(a.Lhs) != 2 || len(a.Rhs) != 1 {
+			return false
+		}
+		ix, ok := ast.Unparen(a.Rhs[0]).(*ast.IndexExpr)
+		return ok && objOf(info, ix.Index) == originObj
+	}) {
+		a := s.X.(*ast.AssignStmt)
+		metaObj = objOf(info, ast.Unparen(a.Rhs[0]).(*ast.IndexExpr).X)
+		s2 := s
+		s2.Call = nil
+		_, known = boolOrErrEdges(s2, objOf(info, a.Lhs[1]), false)
+	}
+	lv := liveEdges(g, known)
+	if metaObj == nil || len(lv) == 0 {
+		c.Unk(inst, "lookup of the origin in the working configuration not found")
+		return
+	}
+	// the key comparison: a ContainsFunc over the entry's verifiers whose predicate compares with the listed vkey
+	var same map[Edge]bool
+	for _, s := range f.Calls(Callee{"slices", "", "ContainsFunc"}) {
+		if len(s.Call.Args) != 2 {
+			continue
+		}
+		lit, ok := ast.Unparen(s.Call.Args[1]).(*ast.FuncLit)
+		if !ok {
+			continue
+		}
+		usesVkey := false
+		ast.Inspect(lit.Body, func(n ast.Node) bool {
+			if be, ok := n.(*ast.BinaryExpr); ok && be.Op == token.EQL && (objOf(info, be.X) == vkeyObj || objOf(info, be.Y) == vkeyObj) {
+				usesVkey = true
+			}
+			return true
+		})
+		if usesVkey {
+			same = callTrueEdges(g, s.Call)
+		}
+	}
+	if len(same) == 0 {
+		c.Bad(inst, f.Pos(loop), "for an origin that is already configured the listed key is not compared with the configured one")
+		return
+	}
+	head := rangeHead(g, loop)
+	okRets := successReturns(f)
+	var stores []Site
+	for _, s := range f.Find(func(n ast.Node) bool {
+		a, ok := n.(*ast.AssignStmt)
+		if !ok {
+			return false
+		}
+		for _, l := range a.Lhs {
+			if ix, ok := ast.Unparen(l).(*ast.IndexExpr); ok && objOf(info, ix.X) == metaObj {
+				return true
+			}
+		}
+		return false
+	}) {
+		stores = append(stores, s)
+	}
+	bad := false
+	for _, e := range lv {
+		cut := Cut{Edges: same}
+		if g.EntersBlock(EdgeStart(e), cut, head) {
+			bad = true
+		}
+		if pt, _ := g.Reach(EdgeStart(e), Cut{Edges: same, NoEnter: func(b *cfg.Block) bool { return b == head }}, atAnySite(append(stores, okRets...))); pt != nil {
+			bad = true
+		}
+	}
+	if bad {
+		c.Bad(inst, f.Pos(loop), "a log list that names an already configured origin with a different key can be accepted (or even update the configuration): checkpoints for that origin would then be accepted under a key other than the one on record")
+		return
+	}
+	c.add(Result{Instance: inst, Verdict: Discharged, Evals: len(lv), Sites: []string{f.Pos(loop)}, Detail: "from the known-origin edge, with the same-key edges cut, neither the next entry, a configuration store nor a successful return is reachable", Witnesses: f.WitEdges(same)})
 }
